@@ -27,6 +27,9 @@ EXPLANATION = (
   "Python dict usertypes._type_defaults is compared key by key and value by value "
   "(None~null, False~false, ''~\"\", 0/0.0~0, float('inf')~Number.POSITIVE_INFINITY) with "
   "_defaultValues of app/common/gristTypes.ts, including the fallback for unknown types (R5). "
+  "get_type_default, like Node, is a function of the pure type only: its final return is the "
+  "table lookup with Node's fallback, and every early return is compared with Node's default for "
+  "each pure type its guard admits. "
   "Exhaustive over the current tree. Not decided: byte-for-byte layout of the generated file "
   "(comments, padding), the SQL representations in _defaultValues' second components.")
 
